@@ -5,6 +5,7 @@ import (
 	"fmt"
 	"io"
 	"os"
+	"os/signal"
 	"strconv"
 
 	"github.com/sirupsen/logrus"
@@ -21,6 +22,15 @@ func main() {
 	oracle := flag.String("oracle", "/verif/lean/.lake/build/bin/oracle", "oracle binary")
 	child := flag.String("child", "", "internal: run a child-process case")
 	flag.Parse()
+	// Started as a background job of a non-interactive shell the harness inherits SIGINT ignored, and so
+	// would every command it starts: the interrupt that ends an overrunning command would be ignored by
+	// `sleep` and friends, which says nothing about the code under check. A handler in this process gives
+	// the children the default disposition back.
+	if signal.Ignored(os.Interrupt) {
+		ch := make(chan os.Signal, 1)
+		signal.Notify(ch, os.Interrupt)
+		go func() { <-ch; os.Exit(130) }()
+	}
 	if os.Getenv("VERIF_LOG") == "" {
 		logrus.SetOutput(io.Discard)
 	}
